@@ -16,9 +16,12 @@ import (
 	"sync"
 )
 
+// childTmp is the TMPDIR of all child processes (inside the scratch dir).
+var childTmp string
+
 // goEnv is the environment for every child process: offline, local toolchain.
 func goEnv() []string {
-	drop := map[string]bool{"GOFLAGS": true, "GOPROXY": true, "GOSUMDB": true, "GOTOOLCHAIN": true, "GOWORK": true}
+	drop := map[string]bool{"GOFLAGS": true, "GOPROXY": true, "GOSUMDB": true, "GOTOOLCHAIN": true, "GOWORK": true, "TMPDIR": childTmp != ""}
 	var env []string
 	for _, kv := range os.Environ() {
 		if i := strings.IndexByte(kv, '='); i > 0 && drop[kv[:i]] {
@@ -26,7 +29,13 @@ func goEnv() []string {
 		}
 		env = append(env, kv)
 	}
-	return append(env, "GOFLAGS=-mod=mod", "GOPROXY=off", "GOSUMDB=off", "GOTOOLCHAIN=local", "GOWORK=off")
+	env = append(env, "GOFLAGS=-mod=mod", "GOPROXY=off", "GOSUMDB=off", "GOTOOLCHAIN=local", "GOWORK=off")
+	if childTmp != "" {
+		// cff drops a "*.go" file into the temp dir when its output does not
+		// parse; keep that inside the scratch directory.
+		env = append(env, "TMPDIR="+childTmp)
+	}
+	return env
 }
 
 // runIn runs a command in dir and returns its exit status and combined output.
@@ -40,7 +49,15 @@ func runIn(dir string, name string, args ...string) (int, string) {
 // Go runtime knobs below only keep them from fighting over the CPUs (they
 // do not influence what cff computes).
 func runCff(dir string, bin string, args ...string) (int, string) {
-	extra := []string{"GOGC=off", "GOMAXPROCS=4"}
+	return runCffTmp("", dir, bin, args...)
+}
+
+// runCffTmp is runCff with a private TMPDIR (when tmp is not empty).
+func runCffTmp(tmp string, dir string, bin string, args ...string) (int, string) {
+	extra := []string{"GOGC=400", "GOMAXPROCS=2"}
+	if tmp != "" {
+		extra = append(extra, "TMPDIR="+tmp)
+	}
 	if v := os.Getenv("TEXTRUN_CFFENV"); v != "" {
 		extra = strings.Fields(v)
 	}
@@ -203,14 +220,14 @@ func writeScratchGoMod(cfg *config, dir, module string) error {
 	return os.WriteFile(filepath.Join(dir, "go.sum"), sum, 0o644)
 }
 
-// maxWorkers bounds the number of concurrent child processes (-j; 0 = number of CPUs).
+// maxWorkers bounds the number of concurrent child processes (-j; 0 = 1.5 x number of CPUs).
 var maxWorkers int
 
 // parallelDo runs fn(i) for i in [0,n) on a bounded worker pool.
 func parallelDo(n int, fn func(i int)) {
 	workers := maxWorkers
 	if workers <= 0 {
-		workers = runtime.NumCPU()
+		workers = runtime.NumCPU() * 3 / 2 // the children are limited to GOMAXPROCS=2 and partly wait on "go list"
 	}
 	if workers > n {
 		workers = n
